@@ -236,7 +236,7 @@ VOCAB_BLOCK = {
     "lheading": {"heading_open", "heading_close"}, "paragraph": {"paragraph_open", "paragraph_close"},
 }
 VOCAB_INLINE = {
-    "text": {"text"}, "linkify": {"link_open", "link_close", "text"}, "newline": {"softbreak", "hardbreak"}, "escape": {"text", "text_special"},
+    "text": {"text"}, "linkify": {"link_open", "link_close", "text"}, "newline": {"softbreak", "hardbreak"}, "escape": {"text", "text_special", "hardbreak"},
     "backticks": {"code_inline"}, "strikethrough": {"s_open", "s_close", "text"}, "emphasis": {"em_open", "em_close", "strong_open", "strong_close", "text"},
     "link": {"link_open", "link_close"}, "image": {"image"}, "autolink": {"link_open", "link_close", "text"}, "html_inline": {"html_inline"},
     "entity": {"text", "text_special"},
